@@ -16,7 +16,7 @@ THEOREMS = ['C09_no_stuck', 'C09_impl_repaired', 'C09_no_stuck_impl', 'C09_step_
             'C09_exit_nonzero', 'C09_clean_exit_zero', 'C09_refuted_unfixed', 'C09_holds_below_capacity', 'C09_run_sound',
             'C09_sync_layer_step_decreases', 'C09_sync_layer_terminates',
             # remote placement (Model/RemoteSession.v)
-            'C09_remote_no_stuck_partial', 'C09_remote_no_stuck_link_down', 'C09_remote_no_stuck_after_cut', 'C09_remote_no_stuck_after_stdin_closed', 'C09_remote_step_decreases', 'C09_remote_terminates', 'C09_remote_run_sound', 'C09_remote_plan_run_sound',
+            'C09_remote_no_stuck_partial', 'C09_remote_no_stuck_link_down', 'C09_remote_no_stuck_after_cut', 'C09_remote_no_stuck_after_stdin_closed', 'C09_remote_receiver_never_waits', 'C09_remote_stuck_shape', 'C09_remote_no_stuck_faultfree_partial', 'C09_remote_step_decreases', 'C09_remote_terminates', 'C09_remote_run_sound', 'C09_remote_plan_run_sound',
             'C09_remote_needs_resp_ok', 'C09_remote_needs_covered', 'C09_remote_exit_refuted']
 REMOTE_C14 = ['C14_remote_delivery', 'C14_remote_pipeline']     # stated in Props/C14.v over the same model
 
